@@ -29,6 +29,7 @@ FINDER = "black_it.samplers.base:BaseSampler.find_and_get_duplicates"
 def run(ctx: Context) -> None:
     ctx.rule(sample_rules)
     ctx.rule(finder_rules)
+    ctx.rule(stateless_rule)
 
 
 def sample_rules(ctx: Context) -> None:
@@ -193,3 +194,54 @@ def finder_rules(ctx: Context) -> None:
     for r in returns_of(f):
         ok = isinstance(r.value, ast.Name)
         ctx.check(ok, "D7.return", "find_and_get_duplicates:return", "returns the list of positions", f"returns `{src(r.value)}`", f, r)
+
+
+def stateless_rule(ctx: Context) -> None:
+    """sample() and the duplicate finder are functions of (history, draws): no cache of earlier histories on the sampler / module."""
+    prog = ctx.prog
+    base = prog.find_class("BaseSampler")
+    reach = []
+    work = [ctx.func(SAMPLE), ctx.func(FINDER)]
+    while work:
+        f = work.pop()
+        if f in reach:
+            continue
+        reach.append(f)
+        for c in calls_in(f.node, scope_only=False):
+            for t in prog.resolve_call(f, c):
+                if isinstance(t, FuncInfo) and t not in reach and t.name != "sample_batch" and (t.cls is base or t.module.name in ("black_it.samplers.base", "black_it.utils.base")) and "abstractmethod" not in t.decorators:
+                    work.append(t)
+                elif isinstance(t, str) and t.startswith("black_it.") and t in prog.classes:
+                    k = prog.classes[t]
+                    work.extend(m for m in prog.methods_of(k) if m not in reach)
+        # classes instantiated by the dedup layer (helper indexes)
+        for c in calls_in(f.node, scope_only=False):
+            k = prog.class_of_name(f.module, dotted(c.func) or "")
+            if k is not None and k.module.name in ("black_it.samplers.base", "black_it.utils.base"):
+                work.extend(m for m in prog.methods_of(k) if m not in reach)
+    for f in reach:
+        ctx.analysed(f)
+        if f.cls is not None and f.cls is not base and f.name == "__init__":
+            continue
+        for x in ast.walk(f.node):
+            tg = None
+            if isinstance(x, ast.Assign):
+                tg = x.targets[0]
+            elif isinstance(x, (ast.AugAssign, ast.AnnAssign)):
+                tg = x.target
+            b = tg
+            while isinstance(b, ast.Subscript):
+                b = b.value
+            if isinstance(b, ast.Attribute) and isinstance(b.value, ast.Name) and b.value.id == f.self_name and f.cls is base:
+                ctx.fail("D8.stateless", f"{f.qualname.split(':')[1]}:self.{b.attr}", f"`{src(x)[:80]}`: the deduplication layer stores state on the sampler between calls; "
+                         "a sampler used again with another history then compares against stale rows", f, x)
+            if isinstance(x, ast.Call) and isinstance(x.func, ast.Attribute) and x.func.attr in ("append", "extend", "add", "update", "setdefault", "insert") \
+                    and isinstance(x.func.value, ast.Attribute) and isinstance(x.func.value.value, ast.Name) and x.func.value.value.id == f.self_name and f.cls is base:
+                ctx.fail("D8.stateless", f"{f.qualname.split(':')[1]}:self.{x.func.value.attr}.{x.func.attr}", f"`{src(x)[:80]}` accumulates state on the sampler between sample() calls", f, x)
+            if isinstance(x, ast.Global):
+                ctx.fail("D8.stateless", f"{f.qualname.split(':')[1]}:global", f"`{src(x)}` in the deduplication layer", f, x)
+        for d in f.node.decorator_list:
+            nm = (dotted(d) or (dotted(d.func) if isinstance(d, ast.Call) else "") or "").split(".")[-1]
+            if nm in ("lru_cache", "cache"):
+                ctx.fail("D8.stateless", f"{f.qualname.split(':')[1]}:decorator:{nm}", f"@{nm} in the deduplication layer keeps earlier histories", f, d)
+    ctx.ok("D8.stateless", "dedup-layer:scanned", f"{len(reach)} functions of the deduplication layer keep no state between calls")
